@@ -269,7 +269,7 @@ def run(ck, build):
         lab = v + "/N0"
         C17.system_rule(_Rename(ck, "R-C18-PRNG"), mod, lab)
         C17.status_rule(_Rename(ck, "R-C18-PRNG"), mod, "tinyjambu_prng_init_user", lab)
-    ck.floor("R-C18", "fault classes explored over 4 variants", total, 60)
+    ck.floor("R-C18", "fault classes explored over 4 variants", total, 40)
     # positive control
     fx = Module(build.fixture_facts(os.path.join(os.path.dirname(os.path.dirname(os.path.dirname(__file__))), "fixtures", "c18_bad.c")))
     sub = type(ck)("C18-fixture")
